@@ -5,6 +5,10 @@ sys.path.insert(0, HERE)
 from contracts import props
 ids = [json.loads(l)['id'] for l in open(os.path.join(HERE, 'properties.jsonl'))]
 NA = getattr(props, 'NOT_APPLICABLE', {})
+OTHER_TEXT = ('deductive verification as for the proof-level checks (every clause generated from the real function ASTs, discharged by z3/cvc5 for all inputs and paths, '
+              'function by function, relative to the listed axioms) EXCEPT the clauses of the open known findings of this property (known_findings.json): '
+              'those obligations fail - each with a scenario program that reproduces the failure on the real code - and are reported as KNOWN-FINDING; '
+              'every other clause is discharged (evidence: obligations vs discharged)')
 checks = []
 for pid in ids:
     P = props.PROPERTIES.get(pid)
@@ -17,7 +21,7 @@ for pid in ids:
         'evidence_file': 'evidence/%s.json' % pid,
         'replay_cmd_template': 'cat {path}',
         'engine': 'pyvc',
-        'level_claimed': {'category': P.get('level', 'proof'), 'text': P.get('level_text', 'every contract clause (pre/post-conditions, loop invariants, exceptional post-conditions, frames, implicit exception sources) generated from the real function ASTs is discharged by z3/cvc5 for all inputs and all paths, function by function; relative to the listed axioms'), 'design_ref': 'DESIGN.md section 6 ' + pid},
+        'level_claimed': {'category': P.get('level', 'proof'), 'text': P.get('level_text', OTHER_TEXT if P.get('level') == 'other' else 'every contract clause (pre/post-conditions, loop invariants, exceptional post-conditions, frames, implicit exception sources) generated from the real function ASTs is discharged by z3/cvc5 for all inputs and all paths, function by function; relative to the listed axioms'), 'design_ref': 'DESIGN.md section 6 ' + pid},
         'level_note': '; '.join(P.get('trusted_base', []))[:1500],
         'technique': P.get('technique', 'contract-based deductive verification: sidecar contracts on the real functions, VCs generated from the AST by symbolic execution, discharged by z3 (cvc5 on unknown)'),
     })
